@@ -34,7 +34,7 @@ def gen_cases(tier, seed):
              "perturb": r.choice(["instr", "instr", "none"]) if W > 1 else "none",
              "max_errors": r.choice([0, 0, 1, 2, 5, None]),
              "faults": {"kinds": r.choice([["exc"], ["exc", "value", "callerr"], ["base"], ["kbi", "sysexit", "genexit"], ["exc", "base", "kbi", "value", "callerr"], ["callerr"],
-                                            ["exc", "base", "falsy", "sysexit"], ["falsy", "falsybase", "value"], ["listargs", "exc"], ["listargs"]])}}
+                                            ["exc", "base", "falsy", "sysexit"], ["falsy", "falsybase", "value"], ["listargs", "exc"], ["listargs"], ["ctorargs"], ["ctorargs", "exc"]])}}
         if r.random() < 0.12:
             # one call at a time, several failures of different kinds, the run allowed to go on: "it is the first call that failed"
             d.update(W=1, perturb="none", max_errors=r.choice([None, None, 2, 5]))
